@@ -58,6 +58,21 @@ def _owner_field(fn, p):
     return (owner['path'], p['p'][-1].get('n'))
 
 
+def _copies_same_field(fn, o, key, depth=0):
+    """is the operand a plain copy of the same field of (another instance of) the same struct (`Clone`, `..*self`)?  Such a
+    store keeps whatever holds for the field"""
+    p = op_place(o)
+    if p is None or depth > 6:
+        return False
+    if p['p']:
+        return _owner_field(fn, p) == key
+    defs = [s['rv'] for bi in fn.reachable() for s in fn.blocks[bi]['stmts']
+            if s['k'] == 'assign' and not s['lhs']['p'] and s['lhs']['l'] == p['l']]
+    if len(defs) == 1 and defs[0]['k'] == 'use':
+        return _copies_same_field(fn, defs[0]['a'], key, depth + 1)
+    return False
+
+
 def _state_after(an, b, upto):
     """abstract state after the first `upto` statements of block b (None when the block is unreachable)"""
     if b not in an.in_state:
@@ -87,7 +102,7 @@ def infer(facts, base_fields, rounds=2):
                 rv = s['rv']
                 if s['lhs']['p']:
                     k = _owner_field(fn, s['lhs'])
-                    if k in cands:
+                    if k in cands and not (rv['k'] == 'use' and _copies_same_field(fn, rv['a'], k)):
                         sites[k].append((fn, bi, si, 'store', None))
                 if rv['k'] == 'ref' and rv.get('mut'):
                     k = _owner_field(fn, rv['p'])
@@ -100,7 +115,7 @@ def infer(facts, base_fields, rounds=2):
                 if rv['k'] == 'agg' and rv.get('ak') == 'adt':
                     for fname, o in zip(rv.get('fields') or [], rv.get('ops') or []):
                         k = (rv.get('adt'), fname)
-                        if k in cands:
+                        if k in cands and not _copies_same_field(fn, o, k):
                             sites[k].append((fn, bi, si, 'agg', o))
     live = {k for k in cands if k not in dropped and sites[k]}
     result = {}
